@@ -576,6 +576,11 @@ PPL::Grid::relation_with(const Grid_Generator& g) const {
     return Poly_Gen_Relation::subsumes();
   }
 
+  // An empty grid cannot subsume a generator, even when not marked as such.
+  if (is_empty()) {
+    return Poly_Gen_Relation::nothing();
+  }
+
   if (!congruences_are_up_to_date()) {
     update_congruences();
   }
@@ -604,6 +609,11 @@ PPL::Grid::relation_with(const Generator& g) const {
   // generators of a zero-dimensional space.
   if (space_dim == 0) {
     return Poly_Gen_Relation::subsumes();
+  }
+
+  // An empty grid cannot subsume a generator, even when not marked as such.
+  if (is_empty()) {
+    return Poly_Gen_Relation::nothing();
   }
 
   if (!congruences_are_up_to_date()) {
@@ -799,6 +809,14 @@ PPL::Grid::is_universe() const {
   }
 
   // Test con_sys's inclusion in a universe generator system.
+  {
+    // The origin must satisfy the congruences too.
+    Linear_Expression origin_expr;
+    origin_expr.set_space_dimension(space_dim);
+    if (!con_sys.satisfies_all_congruences(grid_point(origin_expr))) {
+      return false;
+    }
+  }
 
   // The zero dimension cases are handled above.
   for (dimension_type i = space_dim; i-- > 0; ) {
